@@ -1,6 +1,8 @@
 //! Fault-injecting, recording wrappers around the REAL in-memory stores (the existing `JwkStorage` / `KeyIdStorage`
 //! seams). A wrapper (1) records every call, (2) offers the scheduler a yield before and after the inner call,
-//! (3) lets the fault plan turn the call into a clean failure (an `Err` of a documented kind, inner store untouched).
+//! (3) lets the fault plan turn the call into a clean failure (an `Err` of a documented kind, inner store untouched) or,
+//! for the three calls whose effect the caller can name and take back (`insert_key_id`, `delete_key_id`, `delete`), into
+//! a DIRTY failure: the inner call is made and takes effect, the acknowledgement is lost and the caller sees an `Err`.
 //! The `inner` stores stay reachable for the oracle's un-faulted observer reads.
 
 use crate::core::ctx;
@@ -41,6 +43,8 @@ pub struct FaultCtl {
   pub armed: Cell<bool>,
   /// bit i set = the i-th storage call (by occurrence) of the current operation fails cleanly
   pub mask: Cell<u32>,
+  /// bit i set (together with bit i of `mask`) = that failure is dirty: the call takes effect, then reports an error
+  pub dirty: Cell<u32>,
   pub call_index: Cell<u32>,
   /// alternative to the mask: per-kind failure rates (num, den), used by the world engine
   pub rates: RefCell<BTreeMap<&'static str, (u32, u32)>>,
@@ -72,10 +76,18 @@ impl FaultCtl {
   pub fn end_op(&self) {
     self.armed.set(false);
     self.mask.set(0);
+    self.dirty.set(0);
+  }
+  /// Like `decide`, for the calls that may fail dirty: (fails, dirty).
+  fn decide_dirty(&self, kind: &'static str) -> (bool, bool) {
+    self.decide_how(kind, true)
   }
   fn decide(&self, kind: &'static str) -> bool {
+    self.decide_how(kind, false).0
+  }
+  fn decide_how(&self, kind: &'static str, may_be_dirty: bool) -> (bool, bool) {
     if !self.armed.get() {
-      return false;
+      return (false, false);
     }
     let idx = self.call_index.get();
     self.call_index.set(idx + 1);
@@ -85,12 +97,18 @@ impl FaultCtl {
       _ => false,
     };
     let fail = by_mask || by_rate;
+    let dirty = may_be_dirty && by_mask && (self.dirty.get() >> idx) & 1 == 1;
     if fail {
       self.faults_fired.set(self.faults_fired.get() + 1);
-      ctx::stat(&format!("fault.storage.fail_clean.{kind}"));
+      if dirty {
+        ctx::stat(&format!("fault.storage.fail_dirty.{kind}"));
+        ctx::sched("dirty", idx as u64 + 1);
+      } else {
+        ctx::stat(&format!("fault.storage.fail_clean.{kind}"));
+      }
       ctx::sched(kind, idx as u64 + 1);
     }
-    fail
+    (fail, dirty)
   }
   async fn maybe_yield(&self, label: &'static str) {
     let (n, d) = self.yield_rate.get();
@@ -120,6 +138,34 @@ impl FaultCtl {
   pub fn failed_kinds(&self) -> Vec<&'static str> {
     self.calls.borrow().iter().filter(|c| c.1).map(|c| c.0).collect()
   }
+}
+
+fn jwk_err_for(ctl: &FaultCtl) -> KeyStorageError {
+  // A store that loses acknowledgements AND answers "not found" for an entry it holds is not failing but lying: no
+  // caller can cope with that. In an operation with dirty failures injected errors keep to the transient kinds.
+  if ctl.dirty.get() != 0 {
+    let kind = match ctx::choose(4) {
+      0 => KeyStorageErrorKind::RetryableIOFailure,
+      1 => KeyStorageErrorKind::Unavailable,
+      2 => KeyStorageErrorKind::Unauthenticated,
+      _ => KeyStorageErrorKind::Unspecified,
+    };
+    return KeyStorageError::new(kind).with_custom_message("injected by simulator");
+  }
+  jwk_err()
+}
+
+fn kid_err_for(ctl: &FaultCtl) -> KeyIdStorageError {
+  if ctl.dirty.get() != 0 {
+    let kind = match ctx::choose(4) {
+      0 => KeyIdStorageErrorKind::RetryableIOFailure,
+      1 => KeyIdStorageErrorKind::Unavailable,
+      2 => KeyIdStorageErrorKind::Unauthenticated,
+      _ => KeyIdStorageErrorKind::Unspecified,
+    };
+    return KeyIdStorageError::new(kind).with_custom_message("injected by simulator");
+  }
+  kid_err()
 }
 
 fn jwk_err() -> KeyStorageError {
@@ -168,7 +214,7 @@ impl JwkStorage for FaultyJwk {
     self.ctl.maybe_yield("w.generate.pre").await;
     if self.ctl.decide("generate") {
       self.ctl.record("generate", true, false);
-      return Err(jwk_err());
+      return Err(jwk_err_for(&self.ctl));
     }
     let mut r = self.inner.generate(key_type, alg).await;
     if self.ctl.strip_kid.get() || self.ctl.strip_alg.get() {
@@ -196,7 +242,7 @@ impl JwkStorage for FaultyJwk {
     self.ctl.maybe_yield("w.insert.pre").await;
     if self.ctl.decide("insert") {
       self.ctl.record("insert", true, false);
-      return Err(jwk_err());
+      return Err(jwk_err_for(&self.ctl));
     }
     let r = self.inner.insert(jwk).await;
     self.ctl.maybe_yield("w.insert.post").await;
@@ -208,7 +254,7 @@ impl JwkStorage for FaultyJwk {
     self.ctl.maybe_yield("w.sign.pre").await;
     if self.ctl.decide("sign") {
       self.ctl.record("sign", true, false);
-      return Err(jwk_err());
+      return Err(jwk_err_for(&self.ctl));
     }
     let r = self.inner.sign(key_id, data, public_key).await;
     self.ctl.maybe_yield("w.sign.post").await;
@@ -230,9 +276,14 @@ impl JwkStorage for FaultyJwk {
 
   async fn delete(&self, key_id: &KeyId) -> KeyStorageResult<()> {
     self.ctl.maybe_yield("w.delete.pre").await;
-    if self.ctl.decide("delete") {
+    let (fail, dirty) = self.ctl.decide_dirty("delete");
+    if fail {
       self.ctl.record("delete", true, false);
-      return Err(jwk_err());
+      if dirty {
+        // the key is removed, the acknowledgement is lost (a failure of the store's own is returned as it is)
+        self.inner.delete(key_id).await?;
+      }
+      return Err(jwk_err_for(&self.ctl));
     }
     let r = self.inner.delete(key_id).await;
     self.ctl.maybe_yield("w.delete.post").await;
@@ -244,7 +295,7 @@ impl JwkStorage for FaultyJwk {
     self.ctl.maybe_yield("w.exists.pre").await;
     if self.ctl.decide("exists") {
       self.ctl.record("exists", true, false);
-      return Err(jwk_err());
+      return Err(jwk_err_for(&self.ctl));
     }
     let r = self.inner.exists(key_id).await;
     self.ctl.record("exists", false, r.is_ok());
@@ -257,9 +308,13 @@ impl KeyIdStorage for FaultyKeyId {
   async fn insert_key_id(&self, method_digest: MethodDigest, key_id: KeyId) -> KeyIdStorageResult<()> {
     self.ctl.note_digest(&method_digest);
     self.ctl.maybe_yield("w.insert_key_id.pre").await;
-    if self.ctl.decide("insert_key_id") {
+    let (fail, dirty) = self.ctl.decide_dirty("insert_key_id");
+    if fail {
       self.ctl.record("insert_key_id", true, false);
-      return Err(kid_err());
+      if dirty {
+        self.inner.insert_key_id(method_digest, key_id).await?;
+      }
+      return Err(kid_err_for(&self.ctl));
     }
     let r = self.inner.insert_key_id(method_digest, key_id).await;
     self.ctl.maybe_yield("w.insert_key_id.post").await;
@@ -272,7 +327,7 @@ impl KeyIdStorage for FaultyKeyId {
     self.ctl.maybe_yield("w.get_key_id.pre").await;
     if self.ctl.decide("get_key_id") {
       self.ctl.record("get_key_id", true, false);
-      return Err(kid_err());
+      return Err(kid_err_for(&self.ctl));
     }
     let r = self.inner.get_key_id(method_digest).await;
     self.ctl.maybe_yield("w.get_key_id.post").await;
@@ -283,9 +338,13 @@ impl KeyIdStorage for FaultyKeyId {
   async fn delete_key_id(&self, method_digest: &MethodDigest) -> KeyIdStorageResult<()> {
     self.ctl.note_digest(method_digest);
     self.ctl.maybe_yield("w.delete_key_id.pre").await;
-    if self.ctl.decide("delete_key_id") {
+    let (fail, dirty) = self.ctl.decide_dirty("delete_key_id");
+    if fail {
       self.ctl.record("delete_key_id", true, false);
-      return Err(kid_err());
+      if dirty {
+        self.inner.delete_key_id(method_digest).await?;
+      }
+      return Err(kid_err_for(&self.ctl));
     }
     let r = self.inner.delete_key_id(method_digest).await;
     self.ctl.maybe_yield("w.delete_key_id.post").await;
